@@ -770,7 +770,7 @@ func (e *c16Env) fromChallenge(m ssa.Value, depth int) bool {
 	if depth > 3 {
 		return false
 	}
-	rs := Roots(m)
+	rs := e.BV.LeavesShallow(m)
 	if len(rs) == 0 {
 		return false
 	}
@@ -783,17 +783,6 @@ func (e *c16Env) fromChallenge(m ssa.Value, depth int) bool {
 			idx = u.Index
 		case *ssa.Call:
 			call = u
-		case *ssa.Parameter:
-			ok := len(e.BV.Leaves(u)) > 0
-			for _, l := range e.BV.Leaves(u) {
-				if l == ssa.Value(u) || !e.fromChallenge(l, depth+1) {
-					ok = false
-				}
-			}
-			if ok {
-				continue
-			}
-			return false
 		}
 		if call == nil {
 			return false
@@ -919,6 +908,142 @@ func (e *c16Env) formGoesToRealm(set ssa.CallInstruction) (bool, string) {
 
 // ---------- R3 ----------
 
+type c16CacheNames struct {
+	ccType, entryType             string
+	cache, status, scheme, tokens string
+}
+
+func c16IsSyncMap(t types.Type) bool {
+	n, ok := t.(*types.Named)
+	return ok && n.Obj().Pkg() != nil && n.Obj().Pkg().Path() == "sync" && n.Obj().Name() == "Map"
+}
+
+// c16ResolveCache identifies the concurrent cache and its entry type by role:
+// the cache is what the exported NewCache returns; the entry is the struct of
+// the package that holds a Scheme and a sync.Map; of the cache's two
+// sync.Maps the in-flight table is the one that stores *syncutil.Once values.
+func c16ResolveCache(c *Ctx) (nm c16CacheNames, why string) {
+	newCache := c.P.Fn(c16Pkg, "NewCache")
+	if newCache == nil {
+		return nm, "~/registry/remote/auth.NewCache"
+	}
+	var ccT *types.Named
+	for _, ret := range Returns(newCache) {
+		for _, r := range Roots(ret.Results[0]) {
+			t := r.Type()
+			if mi, ok := r.(*ssa.MakeInterface); ok {
+				t = mi.X.Type()
+			}
+			if p, ok := t.Underlying().(*types.Pointer); ok {
+				t = p.Elem()
+			}
+			if n, ok := t.(*types.Named); ok {
+				ccT = n
+			}
+		}
+	}
+	if ccT == nil {
+		return nm, "the concrete type NewCache returns"
+	}
+	nm.ccType = ccT.Obj().Name()
+	schemeT := c.P.Named(c16Pkg, "Scheme")
+	pkg := c.P.TypesPkg(c16Pkg)
+	if schemeT == nil || pkg == nil {
+		return nm, "~/registry/remote/auth.Scheme"
+	}
+	for _, name := range pkg.Scope().Names() {
+		tn, ok := pkg.Scope().Lookup(name).(*types.TypeName)
+		if !ok {
+			continue
+		}
+		st, ok := tn.Type().Underlying().(*types.Struct)
+		if !ok {
+			continue
+		}
+		sf, mf, n := "", "", 0
+		for i := 0; i < st.NumFields(); i++ {
+			f := st.Field(i)
+			if types.Identical(f.Type(), schemeT) {
+				sf = f.Name()
+				n++
+			}
+			if c16IsSyncMap(f.Type()) {
+				mf = f.Name()
+				n++
+			}
+		}
+		if sf != "" && mf != "" && n == 2 {
+			nm.entryType, nm.scheme, nm.tokens = name, sf, mf
+		}
+	}
+	if nm.entryType == "" {
+		return nm, "the per-registry cache entry (a struct with a Scheme and a sync.Map)"
+	}
+	cst, ok := ccT.Underlying().(*types.Struct)
+	if !ok {
+		return nm, "the cache type is not a struct"
+	}
+	var maps []string
+	for i := 0; i < cst.NumFields(); i++ {
+		if c16IsSyncMap(cst.Field(i).Type()) {
+			maps = append(maps, cst.Field(i).Name())
+		}
+	}
+	if len(maps) != 2 {
+		return nm, "the cache type: expected two sync.Map fields (entries, in-flight fetches)"
+	}
+	tCC := "~/registry/remote/auth." + nm.ccType
+	for _, f := range c.P.FuncsOfPkg(c16Pkg) {
+		for _, call := range CallsTo(f, "(*sync.Map).LoadOrStore", "(*sync.Map).Store") {
+			args := call.Common().Args
+			fa, ok := args[0].(*ssa.FieldAddr)
+			if !ok || c14NamedOf(fa.X.Type()) != tCC || len(args) < 3 {
+				continue
+			}
+			for _, r := range Roots(args[2]) {
+				if c14NamedOf(r.Type()) == "~/internal/syncutil.Once" {
+					nm.status = strings.TrimPrefix(fieldName(fa.X.Type(), fa.Field), tCC+".")
+				}
+			}
+		}
+	}
+	for _, m := range maps {
+		if m != nm.status {
+			nm.cache = m
+		}
+	}
+	if nm.status == "" || nm.cache == "" {
+		return nm, "the cache's in-flight table (the sync.Map that stores *syncutil.Once)"
+	}
+	return nm, ""
+}
+
+// c16OnceFields: the fields of syncutil.Once by type.
+func c16OnceFields(c *Ctx) (result, err, status string) {
+	ot := c.P.Named("internal/syncutil", "Once")
+	if ot == nil {
+		return
+	}
+	st, ok := ot.Underlying().(*types.Struct)
+	if !ok {
+		return
+	}
+	for i := 0; i < st.NumFields(); i++ {
+		f := st.Field(i)
+		switch t := f.Type().Underlying().(type) {
+		case *types.Interface:
+			if isErrorType(f.Type()) {
+				err = f.Name()
+			} else if t.NumMethods() == 0 {
+				result = f.Name()
+			}
+		case *types.Chan:
+			status = f.Name()
+		}
+	}
+	return
+}
+
 // c16Operands: the leaves v is built from, looking through string
 // concatenation, strings.Join of a literal list, method calls on a value
 // (scheme.String()) and conversions.
@@ -964,9 +1089,9 @@ func c16R3(e *c16Env) {
 	const R = "C16.R3.cache-keying"
 	c := e.c
 	c.Expect(R, 13)
-	if !c14HasField(c.P, c16Pkg, "concurrentCache", "cache") || !c14HasField(c.P, c16Pkg, "concurrentCache", "status") ||
-		!c14HasField(c.P, c16Pkg, "cacheEntry", "scheme") || !c14HasField(c.P, c16Pkg, "cacheEntry", "tokens") {
-		c.LostAnchor(R, "~/registry/remote/auth.concurrentCache.{cache,status} / cacheEntry.{scheme,tokens}")
+	nm, why := c16ResolveCache(c)
+	if why != "" {
+		c.LostAnchor(R, why)
 		return
 	}
 	iface := c.P.Named(c16Pkg, "Cache")
@@ -974,7 +1099,8 @@ func c16R3(e *c16Env) {
 		c.LostAnchor(R, "~/registry/remote/auth.Cache")
 		return
 	}
-	const tCC, tCE = "~/registry/remote/auth.concurrentCache", "~/registry/remote/auth.cacheEntry"
+	tCC, tCE := "~/registry/remote/auth."+nm.ccType, "~/registry/remote/auth."+nm.entryType
+	fCache, fStatus, fScheme, fTokens := "."+nm.cache, "."+nm.status, "."+nm.scheme, "."+nm.tokens
 	// parameters by their position in the Cache interface: (ctx, registry[, scheme, key[, fetch]])
 	param := func(f *ssa.Function, pos int) *ssa.Parameter {
 		if f.Signature.Recv() == nil || pos+1 >= len(f.Params) {
@@ -1005,7 +1131,7 @@ func c16R3(e *c16Env) {
 	covered := map[ssa.Instruction]bool{}
 	nMethods := 0
 	for _, mname := range []string{"GetScheme", "GetToken", "Set"} {
-		f := c.P.Fn(c16Pkg, "concurrentCache."+mname)
+		f := c.P.Fn(c16Pkg, nm.ccType+"."+mname)
 		if f == nil {
 			c.LostAnchor(R, tCC+"."+mname)
 			continue
@@ -1020,17 +1146,17 @@ func c16R3(e *c16Env) {
 			op := strings.TrimPrefix(CalleeName(call), "(*sync.Map).")
 			args := call.Common().Args
 			switch mapField(call) {
-			case tCC + ".cache":
+			case tCC + fCache:
 				idx["cache"]++
 				ok := len(args) >= 2 && allIs(vw, args[1], reg)
 				c.Check(R, fmt.Sprintf("%s|cache.%s#%d|key-is-registry", fn, op, idx["cache"]), call.Pos(), ok,
 					ifelse(ok, "the per-registry map is keyed by the registry parameter", "the per-registry cache map is accessed with a key other than the registry parameter: tokens of one registry are returned for another"))
-			case tCE + ".tokens":
+			case tCE + fTokens:
 				idx["tokens"]++
 				ok := len(args) >= 2 && allIs(vw, args[1], key)
 				c.Check(R, fmt.Sprintf("%s|tokens.%s#%d|key-is-key", fn, op, idx["tokens"]), call.Pos(), ok,
 					ifelse(ok, "the token map is keyed by the key parameter", "the token map is accessed with a key other than the key parameter: a token fetched for one scope set is reused for another"))
-			case tCC + ".status":
+			case tCC + fStatus:
 				idx["status"]++
 				ok := reg != nil && scheme != nil && key != nil && len(args) >= 2
 				if ok {
@@ -1057,7 +1183,7 @@ func c16R3(e *c16Env) {
 					if !allIs(vw, y, scheme) {
 						x, y = y, x
 					}
-					if !allIs(vw, y, scheme) || !vw.IsLoadOfField(x, tCE, "scheme") {
+					if !allIs(vw, y, scheme) || !vw.IsLoadOfField(x, tCE, nm.scheme) {
 						continue
 					}
 					if bo.Op == token.EQL {
@@ -1134,7 +1260,7 @@ func c16R3(e *c16Env) {
 			nDel := 0
 			for _, call := range vw.Calls(isMapOp) {
 				op := strings.TrimPrefix(CalleeName(call), "(*sync.Map).")
-				if mapField(call) != tCC+".status" || !strings.Contains(op, "Delete") {
+				if mapField(call) != tCC+fStatus || !strings.Contains(op, "Delete") {
 					continue
 				}
 				nDel++
@@ -1154,7 +1280,7 @@ func c16R3(e *c16Env) {
 				}
 				okS := false
 				for _, r := range *a.Referrers() {
-					if fa, isFA := r.(*ssa.FieldAddr); isFA && fieldName(fa.X.Type(), fa.Field) == tCE+".scheme" {
+					if fa, isFA := r.(*ssa.FieldAddr); isFA && fieldName(fa.X.Type(), fa.Field) == tCE+fScheme {
 						for _, r2 := range *fa.Referrers() {
 							if st, isSt := r2.(*ssa.Store); isSt {
 								okS = allIs(vw, st.Val, scheme)
@@ -1167,14 +1293,14 @@ func c16R3(e *c16Env) {
 			var replaces []ssa.CallInstruction
 			for _, call := range vw.Calls(isMapOp) {
 				args := call.Common().Args
-				if mapField(call) == tCC+".cache" && strings.HasSuffix(CalleeName(call), ".Store") && len(args) == 3 && allIs(vw, args[1], reg) && fresh(args[2]) {
+				if mapField(call) == tCC+fCache && strings.HasSuffix(CalleeName(call), ".Store") && len(args) == 3 && allIs(vw, args[1], reg) && fresh(args[2]) {
 					replaces = append(replaces, call)
 				}
 			}
 			ok := len(neq) > 0
 			nStores := 0
 			for _, call := range vw.Calls(isMapOp) {
-				if mapField(call) != tCE+".tokens" || !strings.HasSuffix(CalleeName(call), ".Store") {
+				if mapField(call) != tCE+fTokens || !strings.HasSuffix(CalleeName(call), ".Store") {
 					continue
 				}
 				nStores++
@@ -1216,7 +1342,7 @@ func c16R3(e *c16Env) {
 	for _, f := range e.fns {
 		for _, call := range Calls(f, isMapOp) {
 			mf := mapField(call)
-			if (mf == tCC+".cache" || mf == tCC+".status" || mf == tCE+".tokens") && !covered[call.(ssa.Instruction)] {
+			if (mf == tCC+fCache || mf == tCC+fStatus || mf == tCE+fTokens) && !covered[call.(ssa.Instruction)] {
 				c.Violation(R, FnName(f)+"|"+CalleeName(call)+"|outside-cache-methods", call.Pos(), "the token cache's maps are accessed by a function that GetScheme/GetToken/Set do not run: its key is not tied to their registry/key parameters")
 			}
 		}
@@ -1651,11 +1777,10 @@ func c16R5(e *c16Env) {
 		c.LostAnchor(R, "~/internal/syncutil.Once.Do(ctx, f)")
 		return
 	}
-	for _, f := range []string{"result", "err", "status"} {
-		if !c14HasField(c.P, "internal/syncutil", "Once", f) {
-			c.LostAnchor(R, "field ~/internal/syncutil.Once."+f)
-			return
-		}
+	oResult, oErr, oStatus := c16OnceFields(c)
+	if oResult == "" || oErr == "" || oStatus == "" {
+		c.LostAnchor(R, "~/internal/syncutil.Once: expected one interface{} (result), one error and one chan bool (status) field")
+		return
 	}
 	fn := FnName(F)
 	vw := c14NewView(F, 4, func(g *ssa.Function) bool {
@@ -1686,7 +1811,7 @@ func c16R5(e *c16Env) {
 	fc := fcalls[0]
 	fci := fc.(ssa.Instruction)
 	fres, ferr := ResultOf(fc, 0), ResultOf(fc, 1)
-	isStatus := func(ch ssa.Value) bool { return vw.IsLoadOfField(ch, tOnce, "status") }
+	isStatus := func(ch ssa.Value) bool { return vw.IsLoadOfField(ch, tOnce, oStatus) }
 	// f runs only with the token (received true from status)
 	var sel *ssa.Select
 	vw.Instrs(func(in ssa.Instruction) {
@@ -1746,7 +1871,7 @@ func c16R5(e *c16Env) {
 			closes = append(closes, cl)
 		}
 	}
-	resStores, errStores := vw.FieldStores(tOnce, "result"), vw.FieldStores(tOnce, "err")
+	resStores, errStores := vw.FieldStores(tOnce, oResult), vw.FieldStores(tOnce, oErr)
 	toI := func(ss []*ssa.Store) []ssa.Instruction {
 		var o []ssa.Instruction
 		for _, s := range ss {
@@ -1837,7 +1962,7 @@ func c16R5(e *c16Env) {
 			}
 			isStored := false
 			for _, l := range Roots(ret.Results[1]) {
-				if c14IsLoadOfField(l, tOnce, "result") {
+				if c14IsLoadOfField(l, tOnce, oResult) {
 					isStored = true
 				}
 			}
@@ -1846,7 +1971,7 @@ func c16R5(e *c16Env) {
 			}
 			nW++
 			first, isK := c14ConstBool(Roots(ret.Results[0])[0])
-			if !isK || first || !c14IsLoadOfField(ret.Results[2], tOnce, "err") || !c14IsLoadOfField(ret.Results[1], tOnce, "result") {
+			if !isK || first || !c14IsLoadOfField(ret.Results[2], tOnce, oErr) || !c14IsLoadOfField(ret.Results[1], tOnce, oResult) {
 				okW = false
 			}
 			// not after f ran in this call
@@ -1857,35 +1982,44 @@ func c16R5(e *c16Env) {
 	}
 	c.Check(R, fn+"|waiter-returns-stored-result", F.Pos(), okW && nW > 0,
 		ifelse(okW && nW > 0, "a caller that finds the channel closed returns (false, o.result, o.err)", "a waiting caller does not return the stored (result, err) with first=false"))
-	// panic path: a deferred closure of a function on f's call stack hands the token back
+	// panic path: a deferred function (literal or method) of a function on f's call stack hands the token back
 	okP := false
 	for _, host := range vw.Funcs() {
-		for _, a := range host.AnonFuncs {
-			rec := CallsTo(a, "builtin:recover")
-			if len(rec) == 0 {
-				continue
+		AllInstrs(host, func(in ssa.Instruction) {
+			d, isD := in.(*ssa.Defer)
+			if !isD {
+				return
 			}
-			var deferIn ssa.Instruction
-			AllInstrs(host, func(in ssa.Instruction) {
-				if d, isD := in.(*ssa.Defer); isD {
-					if mc, isMC := d.Call.Value.(*ssa.MakeClosure); isMC && mc.Fn == a {
-						deferIn = d
-					}
-				}
-			})
-			if deferIn == nil || !vw.MustPass(fci, newCut().Instr(deferIn)) {
-				continue
+			a := StaticCallee(d)
+			if a == nil || len(a.Blocks) == 0 {
+				return
+			}
+			rec := CallsTo(a, "builtin:recover")
+			if len(rec) == 0 || !vw.MustPass(fci, newCut().Instr(d)) {
+				return
+			}
+			av := c14NewView(a, 2, nil)
+			if recv := d.Call.Args; len(recv) > 0 && len(a.Params) > 0 {
+				av.bind[a.Params[0]] = append(av.bind[a.Params[0]], recv[0])
 			}
 			_, nn, _ := NilTests(a, Aliases(rec[0].Value()))
 			var pb []ssa.Instruction
 			for _, s := range c14Sends(a) {
 				if b, isB := c14ConstBool(s.X); isB && b {
-					for _, r := range Roots(s.Chan) {
-						if ld, isLd := r.(*ssa.UnOp); isLd {
-							if fa, isFA := ld.X.(*ssa.FieldAddr); isFA && fieldName(fa.X.Type(), fa.Field) == tOnce+".status" {
-								pb = append(pb, s)
-							}
+					isSt := len(av.LeavesShallow(s.Chan)) > 0
+					for _, r := range av.LeavesShallow(s.Chan) {
+						ld, isLd := r.(*ssa.UnOp)
+						if !isLd {
+							isSt = false
+							continue
 						}
+						fa, isFA := ld.X.(*ssa.FieldAddr)
+						if !isFA || fieldName(fa.X.Type(), fa.Field) != tOnce+"."+oStatus {
+							isSt = false
+						}
+					}
+					if isSt {
+						pb = append(pb, s)
 					}
 				}
 			}
@@ -1912,7 +2046,7 @@ func c16R5(e *c16Env) {
 			if good {
 				okP = true
 			}
-		}
+		})
 	}
 	c.Check(R, fn+"|panic-hands-token-back", F.Pos(), okP,
 		ifelse(okP, "a deferred recover handler puts the token back (only) when f panicked", "a panic in f leaves the in-progress token taken (later callers park forever), or the handler puts a second token back on normal exits"))
